@@ -38,14 +38,18 @@ vcont == Cont
 \* entry == [kind, c, before, after, cls, sto]   (sto: how a patch entry is stored in its archive --
 \*          raw | zsingle (single unit, compressed) | zsect (sector table + compressed sectors); driver only)
 \*   kind = "none" | "plain" (content id c) | "patch" (turns content `before` into `after`)
-\*   cls  = "" | "copy" | "bsd0" | "bsd0neg" (well-formed) | "corrupt" (payload fails its digest) | "garbage" (not a PTCH
+\*   cls  = "" | "copy" | "bsd0" | "bsd0neg" | "bsd0lit" (well-formed; bsd0lit: dense data and a long extra block, i.e.
+\*          maximal literal runs in the RLE layer) | "corrupt" (payload fails its digest) | "garbage" (not a PTCH
 \*          file) | "zerocopy" | "zerobsd0" (md5_after all zero and a damaged payload: a zero digest is just a digest that
 \*          no data matches, so these never apply)
 NoEntry          == [kind |-> "none",  c |-> "", before |-> "", after |-> "", cls |-> "", sto |-> ""]
 Plain(cid)       == [kind |-> "plain", c |-> cid, before |-> "", after |-> "", cls |-> "", sto |-> ""]
 PatchS(b, a, cl, st) == [kind |-> "patch", c |-> "", before |-> b, after |-> a, cls |-> cl, sto |-> st]
 Patch(b, a, cl)  == PatchS(b, a, cl, "raw")
-WellFormedCls    == {"copy", "bsd0", "bsd0neg"}
+WellFormedCls    == {"copy", "bsd0", "bsd0neg", "bsd0lit"}
+\* Contents are opaque ids; one id is distinguished: the content of length zero.  An empty file is a version like any
+\* other (it wins, it is a base, it is the result of a patch); a deviation that treats it as "no file" is d4 below.
+EmptyC           == "E0"
 
 ArchIds(cont)  == DOMAIN cont
 \* every row of `cont` has the same domain
@@ -116,6 +120,8 @@ EntryAt(ch, cont, i, n) == cont[ch[i].a][n]
 \*  "d2" a patch entry that cannot be parsed is skipped with a log line instead of failing the read;
 \*  "d3" apply_bsd0_patch turns a backward seek into "seek to 0" (Ptch.tla, SeekMode = "saturate"),
 \*       so a well-formed patch with a backward seek fails its md5_after guard.
+\* A deviation the code never had, refuted like the others (round 4, the content-length dimension):
+\*  "d4" a winning full file of length zero is reported as not found (a "deletion placeholder").
 AllDevs == {"d1", "d2", "d3"}
 AppliesCls(devs) == IF "d3" \in devs THEN WellFormedCls \ {"bsd0neg"} ELSE WellFormedCls
 
@@ -144,7 +150,8 @@ Resolve(devs, ch, cont, n, w) ==
 ReadWith(devs, ch, cont, map, n) ==
   IF n \notin DOMAIN map \/ map[n] = 0 THEN NotFound
   ELSE LET e == EntryAt(ch, cont, map[n], n)
-       IN  IF e.kind = "plain" THEN Res("ok", e.c) ELSE Resolve(devs, ch, cont, n, map[n])
+       IN  IF e.kind = "plain" THEN (IF "d4" \in devs /\ e.c = EmptyC THEN NotFound ELSE Res("ok", e.c))
+           ELSE Resolve(devs, ch, cont, n, map[n])
 CodeDevs == {}                       \* the deviations the code under test still has
 CodeRead(ch, cont, map, n)  == ReadWith(CodeDevs, ch, cont, map, n)
 OldCodeRead(ch, cont, map, n) == ReadWith(AllDevs, ch, cont, map, n)
